@@ -6,7 +6,8 @@ The primitive file operations of the real `Serializer` — `open(.., 'wb')`, eve
 (inline `serialize` with the built-in writer, with user serializer functions, failing writers; a REAL fork
 child; an incoming chunked transfer) and every prefix k of its primitive operations = crash point:
 the process is "killed" after k operations (inline: nothing after the k-th operation reaches the disk; fork:
-the child really `_exit`s there), then
+the REAL child dies there — by `_exit(9)` and by real signals SIGKILL / SIGTERM / SIGABRT; the parent's
+`checkSerializing()` must then report FAILED (model: `childKill`), never SUCCESS for a dump that was not written), then
   * the three file images (dump, .tmp, .1.tmp) and the operation list are compared with the Lean model
     (`driver serializer`, case kind `crash`: `serializeOps` / `acceptOps` and `FS.crashAt`);
   * monitor (property text): a fresh `Serializer` on the directory sees no dump, the complete old snapshot or
@@ -17,6 +18,7 @@ import json
 import os
 import pickle
 import shutil
+import signal
 import time
 
 from harness.corr import serializer_common as sc
@@ -73,8 +75,13 @@ class Interceptor(object):
     def _gate(self, op):
         """Returns True when the operation is to be performed."""
         if self.kill_at is not None and len(self.ops) >= self.kill_at:
-            if self.hard_exit:
-                os._exit(9)        # the fork child dies here, for real
+            if self.hard_exit:         # the fork child dies here, for real
+                if self.hard_exit in ("SIGKILL", "SIGTERM", "SIGABRT"):
+                    if self.hard_exit != "SIGKILL":
+                        signal.signal(getattr(signal, self.hard_exit), signal.SIG_DFL)
+                    os.kill(os.getpid(), getattr(signal, self.hard_exit))
+                    time.sleep(30)
+                os._exit(9)
             self.dead = True
         self.ops.append(op)
         return not self.dead
@@ -260,12 +267,12 @@ class Scenario(object):
             assert os.path.exists(fn)
         return fn
 
-    def execute(self, sermod, fn, kill_at):
+    def execute(self, sermod, fn, kill_at, death="exit"):
         """Run the operation with a kill after `kill_at` primitive operations (None = no kill).
         Returns (ops recorded, return values / final pid)."""
         rets = []
         if self.what == "serialize":
-            hard = self.fork and kill_at is not None
+            hard = death if (self.fork and kill_at is not None) else False
             with Interceptor(sermod, fn, kill_at, hard_exit=hard) as ic, frozen_time():
                 if self.user:
                     s = sermod.Serializer(fn, self.chunk, False, user_serializer(ic, self.fail_after), user_deserializer, None)
@@ -336,7 +343,7 @@ def model_case(sc_, fs0, ops_real):
     if sc_.what == "serialize":
         pieces = [o.split(" ")[2] if len(o.split(" ")) > 2 else "" for o in ops_real if o.startswith("write tmp")]
         fail = not any(o.startswith("rename") for o in ops_real)
-        return {"k": "crash", "fs": fs0, "inc": False, "what": "serialize", "p": pieces, "fail": fail}
+        return {"k": "crash", "fs": fs0, "inc": False, "what": "serialize", "p": pieces, "fail": fail, "fork": bool(sc_.fork)}
     return {"k": "crash", "fs": fs0, "inc": False, "what": "receive",
             "chunks": [sc.chunk_repr(c) for c in sc_.chunks]}
 
@@ -394,11 +401,24 @@ def run_scenario(ctx, sermod, sc_, base):
     old_data = expect_tuple(sc_.old_data(), sc_.user) if sc_.old else None
     new_data = expect_tuple(sc_.new_data(), sc_.user) if (completes and not sc_.bad) else None
     cases = 0
+    DEATHS = ("exit", "SIGKILL", "SIGTERM", "SIGABRT")
+    points = []
     for k in range(len(ops_full) + 1):
-        dk = os.path.join(base, "k%d" % k)
+        if sc_.fork and k < len(ops_full):
+            # the real child dies by _exit(9) or by a real signal (quick tier: one way per crash point, rotating;
+            # SIGKILL always at the first point and right before the rename)
+            if ctx.tier == "quick":
+                d = "SIGKILL" if k in (0, len(ops_full) - 1) else DEATHS[k % 4]
+                points.append((k, d))
+            else:
+                points.extend((k, d) for d in DEATHS)
+        else:
+            points.append((k, "exit"))
+    for n, (k, death) in enumerate(points):
+        dk = os.path.join(base, "k%d-%d" % (k, n))
         os.makedirs(dk)
         fnk = sc_.prepare(sermod, dk)
-        ops_k, rets_k = sc_.execute(sermod, fnk, k if k < len(ops_full) else None)
+        ops_k, rets_k = sc_.execute(sermod, fnk, k if k < len(ops_full) else None, death)
         img = images(fnk)
         cls = classify(sermod, fnk, sc_.user, old_data, new_data)
         shutil.rmtree(dk)
@@ -426,9 +446,21 @@ def run_scenario(ctx, sermod, sc_, base):
             if sc_.fork and rets_k != [("failed" if sc_.bad else "success")]:
                 dis.append({"input": {"scenario": sc_.key()}, "model": "success" if not sc_.bad else "failed", "impl": rets_k,
                             "note": "status reported for the finished fork child"})
-        elif sc_.fork and rets_k != ["failed"]:
-            dis.append({"input": {"scenario": sc_.key(), "crash_after": k}, "model": "failed", "impl": rets_k,
-                        "note": "status reported for a killed fork child"})
+        elif sc_.fork:
+            key = "child %s before the rename" % ("killed by signal" if death != "exit" else "exits non-zero")
+            cov["prims"][key] = cov["prims"].get(key, 0) + 1
+            expected = (mout.get("killed") or [None] * len(ops_full))[k]
+            if rets_k == ["success"] and cls != "new" and len(viols) < 2:
+                viols.append({"signature": "serializer.dump:success-reported-for-killed-writer",
+                              "what": "the fork dump writer was ended by %s before primitive operation %d of %d (the rename is the last one); "
+                                      "the dump file is %s, yet checkSerializing() reported SUCCESS — the caller trims its log up to a "
+                                      "snapshot that was never written" % (death if death != "exit" else "_exit(9)", k + 1, len(ops_full),
+                                                                           "the OLD snapshot" if cls == "old" else cls),
+                              "replay": {"component": "corr.storage_dump", "scenario": sc_.key(), "crash_after": k, "death": death}})
+            if rets_k != [expected]:
+                if len(dis) < 2:
+                    dis.append({"input": {"scenario": sc_.key(), "crash_after": k, "death": death}, "model": expected, "impl": rets_k,
+                                "note": "status reported for a killed fork child"})
     return cases, dis, viols, cov
 
 
@@ -460,6 +492,9 @@ def run(ctx):
     missing = [k for k in ("absent", "old", "new") if not cov["classes"].get(k)]
     missing += [k for k in ("rename tmp->dump over existing dump", "rename tmp->dump creating first dump",
                             "rename incoming tmp1->dump", "openW tmp", "openW tmp1", "write") if not cov["primitives"].get(k)]
+    if hasattr(os, "fork"):
+        missing += [k for k in ("child killed by signal before the rename", "child exits non-zero before the rename")
+                    if not cov["primitives"].get(k)]
     if hasattr(ctypes, "windll"):
         missing.append("POSIX branch of atomic_replace (this host runs the Windows branch)")
     if missing and not dis and not viols:
